@@ -15,6 +15,14 @@ import traceback
 
 NS = 1_000_000_000
 
+# the real Thread methods, captured before any seam may replace them for the duration of a run
+# (seams.install_seams diverts Thread.start/join/is_alive of threads created by the code under
+# test, e.g. a threading.Thread subclass defined at import time; the simulator's own baton
+# threads must keep using the real ones)
+_THREAD_START = _real_threading.Thread.start
+_THREAD_JOIN = _real_threading.Thread.join
+_THREAD_IS_ALIVE = _real_threading.Thread.is_alive
+
 
 class SimAbort(BaseException):
 	"""Raised inside simulated threads at seam calls when the run is being torn down."""
@@ -185,9 +193,10 @@ class Sim:
 		if t.state != SimThread.NEW:
 			raise RuntimeError("threads can only be started once")
 		t.real = _real_threading.Thread(target=t._bootstrap, name="sim-" + t.name, daemon=True)
+		t.real._vp_real = True
 		t.state = SimThread.RUNNABLE
 		self.threads.append(t)
-		t.real.start()
+		_THREAD_START(t.real)
 		self.record("thread-start", thread=t.name)
 
 	def _park(self, t):
@@ -333,7 +342,7 @@ class Sim:
 				self.driver_sem.acquire()
 		for t in self.threads:
 			if t.real is not None:
-				t.real.join(timeout=1.0)
+				_THREAD_JOIN(t.real, 1.0)
 		self.threads = []
 		self.heap = []
 
